@@ -4,10 +4,12 @@ Part 1 (this file): the six x/w/q converters. Exact pass: the two molar
 masses in typhon.constants are replaced by Fraction stand-ins and every path
 through the conversion graph is walked on Fraction arguments; each node must
 equal the reference Moebius map exactly. Float pass: the same paths on floats
-in seven argument containers, conditioning-based tolerance. Monotonicity on a
-grid, exactly and in floats.
+in seven argument containers, conditioning-based tolerance; single converters
+also on integer and float32 arguments. Monotonicity on a grid, exactly and in
+floats.
 Part 2 (c09_saturation.py): saturation pressures on a temperature lattice,
-rejection of non-positive temperatures, RH <-> VMR, moist lapse rate.
+rejection of non-positive temperatures, RH <-> VMR, moist lapse rate - each
+with float64, integer and float32 arguments.
 """
 import contextlib
 import itertools
@@ -21,8 +23,9 @@ driver.setup_env()
 from typhon import constants                                   # noqa: E402
 
 from checks import c09_saturation as sat                       # noqa: E402
-from checks.c09_util import (CONTAINERS, PER_VALUE, U,          # noqa: E402
-                             atmosphere, evaluate, failure_key, failures)
+from checks.c09_util import (CONTAINERS, DTYPES, PER_VALUE, U,  # noqa: E402
+                             atmosphere, containers, evaluate, failure_key,
+                             failures, representable, unit)
 
 PROP = "C09"
 LEVEL = "exploration"
@@ -33,10 +36,16 @@ RULE = (
     "exactly to the start node), walked (a) on Fractions with two pairs of "
     "Fraction molar masses, every node compared with == against the "
     "reference map, (b) on floats in 7 containers (one call per value: "
-    "float, float64, 0-d, shape (1,), shape (1,1); one call on all values: "
-    "1-d, 2-d column) with tolerance 8 U per edge / (1 - x0); the result "
-    "must have the argument's shape; one case = (pass, "
-    "container or stand-in, path, x0), non-trivial = x0 != 0. Monotonicity: "
+    "Python float, numpy scalar, 0-d, shape (1,), shape (1,1); one call on "
+    "all values: 1-d, 2-d column) with tolerance 8 U per edge / (1 - x0); "
+    "the result must have the argument's shape; one case = (pass, "
+    "container or stand-in, path, x0), non-trivial = x0 != 0. "
+    "Representations: each converter in the same containers (Python number: "
+    "int only) on int64 | int32 | int16 | float32 arguments, namely those "
+    "start values (as x, w or q; for w also 1, 2, 3) that the dtype holds "
+    "exactly, against the reference map with 8 unit round-offs of the "
+    "dtype's arithmetic / (1 - x); one case = (dtype, container, "
+    "converter, value), non-trivial = value != 0. Monotonicity: "
     "each converter on all adjacent pairs of an N-point grid of its input "
     "measure (N=200/2000), exactly and in floats (every pair non-trivial). "
     "Saturation: T = 100..400 K step 1/4 (1/256) K plus T_t and T_t-23 with "
@@ -44,15 +53,26 @@ RULE = (
     "relations at every T; the two array containers hold the whole lattice "
     "and, in further calls, only its part T < T_t-23 | T_t-23 <= T <= T_t | "
     "T > T_t, where every element must get the value (to rounding noise) "
-    "it got within the whole lattice; one case = (container, regime, T), "
-    "non-trivial = T within 4 ulp of or between the two branch "
-    "temperatures; 12 non-positive arguments x 3 functions (all "
-    "non-trivial). RH<->VMR: 7 saturation functions x 2 containers x 2 "
-    "directions x e_eq passed positionally | by keyword x 6 values x p "
-    "lattice x T lattice, non-trivial = value != 0. Lapse rate: 5 "
-    "saturation functions x 2 containers x (p, T) lattice points with "
-    "e_s < p, non-trivial = the moist correction 2 b w_s exceeds 2^-52. All "
-    "cases are distinct by construction (products of duplicate-free lists).")
+    "it got within the whole lattice; the same for int64 | int32 | int16 "
+    "(whole kelvins 100..400) and float32 (step 1/2 (1/16) K) temperatures "
+    "in the same containers (one call per value, quick: only multiples of "
+    "10 K and what is < 2 K from a branch temperature), where in addition "
+    "every value must equal (to rounding noise) the value of the same "
+    "temperature within a float64 array and no result may have an integer "
+    "dtype; one case = (dtype, container, regime, T), non-trivial = T "
+    "within 4 ulp of or between the two branch temperatures; 20 "
+    "non-positive arguments (float, int and float32 scalars and arrays) x 3 "
+    "functions (all non-trivial). RH<->VMR: 7 saturation functions x 2 "
+    "containers x 2 directions x e_eq passed positionally | by keyword x "
+    "6 values x p lattice x T lattice, all float64; with e_eq by keyword "
+    "also each of int64 | int32 | int16 | float32 for the value | p | T "
+    "alone (arrays) and for all three together (scalars - Python int for "
+    "int64 - and arrays), each axis reduced to the lattice values the dtype "
+    "holds exactly (an axis without any stays float64); non-trivial = "
+    "value != 0. Lapse rate: 5 saturation functions x 2 containers x the "
+    "same representations of (p, T) x lattice points with e_s < p, "
+    "non-trivial = the moist correction 2 b w_s exceeds 2^-52. All cases "
+    "are distinct by construction (products of duplicate-free lists).")
 ASSUMPTIONS = [
     "the statement ranges over continua; decided on the listed lattices only "
     "(converters: exactly, since a Moebius map is fixed by three points and "
@@ -62,6 +82,15 @@ ASSUMPTIONS = [
     "a harness error, not a violation)",
     "float tolerances: 8 roundings per converter amplified by at most "
     "1/(1-x); saturation-pressure rounding noise 20*68*2^-53 relative",
+    "a float32 argument is an exact value, but numpy computes with it in "
+    "float32 (and evaluates log, exp and tanh of an int16 argument in "
+    "float32): every tolerance then takes 2^-24 as unit round-off (mixed = "
+    "ice | liquid value: twice the rounding noise, since numpy may pick "
+    "float32 in one of the two evaluations only); "
+    "int64/int32 arguments are held to the float64 tolerances",
+    "the value a temperature gets must not depend on the representation it "
+    "arrives in (the statement speaks of functions of T); the float64 "
+    "array result of typhon is the reference for that",
     "saturation relations are those of the statement (positivity, "
     "monotonicity, ordering, branch equality, continuity); the absolute "
     "Murphy-Koop values are not compared with a reference",
@@ -72,11 +101,16 @@ ASSUMPTIONS = [
     "rejected = any exception; NaN temperatures are not covered",
     "lapse rate only where e_s(T) < p; 'approaching g/cp' is read as "
     "1 - lapse/(g/cp) <= 2 w_s Lv^2/(cp Rv T^2)",
-    "2-d arguments are column vectors or of shape (1,1); other dtypes than "
-    "float64 and list arguments are not covered",
+    "2-d arguments are column vectors or of shape (1,1); unsigned, "
+    "float16, longdouble and list arguments are not covered; integer "
+    "mixing ratios are 0 (x, q) and 0..3 (w) only; paths of several "
+    "converters are walked in float64 only",
     "RH <-> VMR is judged by the round trip, as the statement does: a "
     "change made to both directions alike (e.g. both ignoring e_eq) is not "
-    "covered",
+    "covered; scalars of mixed representations (one argument int, the "
+    "others float) and e_eq passed positionally with other dtypes than "
+    "float64 are not covered",
+    "density() is not part of the statement and not checked",
 ]
 
 X0_QUICK = [F(0), F(1, 1000), F(1, 50), F(1, 4), F(1, 2), F(9, 10),
@@ -90,10 +124,14 @@ HPA_THOROUGH = sorted(HPA_QUICK + [2, 5, 20, 50, 200, 300, 700, 850, 925,
                                    1050])
 TIERS = {
     "quick": dict(maxlen=4, x0=X0_QUICK, mono=200, per_kelvin=4,
-                  hpa=HPA_QUICK, t_step=25),
+                  per_kelvin_other=2, scalar_step_other=10, hpa=HPA_QUICK,
+                  t_step=25),
     "thorough": dict(maxlen=6, x0=X0_THOROUGH, mono=2000, per_kelvin=256,
+                     per_kelvin_other=16, scalar_step_other=None,
                      hpa=HPA_THOROUGH, t_step=2),
 }
+# Whole mass mixing ratios (w ranges over [0, inf)) for the integer dtypes.
+W_WHOLE = [F(1), F(2), F(3)]
 RH_VALUES = {"rh->vmr->rh": [0.0, 1e-3, 0.25, 0.5, 1.0, 1.2],
              "vmr->rh->vmr": [0.0, 1e-6, 0.01, 0.04, 0.5, 0.99]}
 LAPSE_E_EQ = ("default", "water", "ice", "mixed", "magnus")
@@ -103,6 +141,7 @@ CONVERTER = {
     "wx": "mixing_ratio2vmr", "wq": "mixing_ratio2specific_humidity",
     "qx": "specific_humidity2vmr", "qw": "specific_humidity2mixing_ratio",
 }
+CONVERTER_INPUT = {f: e[0] for e, f in CONVERTER.items()}
 
 
 # -- reference model ---------------------------------------------------------
@@ -209,6 +248,33 @@ def walk_float(container, path, x0s):
     return bad
 
 
+def convert_other(dtype, container, name, values):
+    """{index into values: violation} of one converter applied to values of
+    its input measure (exactly representable in the dtype), against the
+    reference map; 8 roundings in the arithmetic of the dtype."""
+    a, b = next(e for e, f in CONVERTER.items() if f == name)
+    r = float_ratio()
+    out = evaluate(getattr(atmosphere(), name), container,
+                   [float(v) for v in values], dtype)
+    bad = {}
+    for i, (v, o) in enumerate(zip(values, out)):
+        xe = to_x(a, v, r)
+        exp = from_x(b, xe, r)
+        if isinstance(o, Exception):
+            bad[i] = (failure_key(name, o), float(exp), repr(o)[:200], "")
+        elif not (math.isfinite(o) and abs(F(o) - exp)
+                  <= F(8 * unit(dtype)) / (1 - xe) * exp):
+            bad[i] = ("convert/%s/%s" % (dtype, name), float(exp), o, "")
+    return bad
+
+
+def other_values(dtype, name, x0s):
+    """Arguments of the converter that the dtype holds exactly: the start
+    values (and whole numbers, for a mass mixing ratio)."""
+    return representable(
+        x0s + (W_WHOLE if CONVERTER_INPUT[name] == "w" else []), dtype)
+
+
 def mono_exact(standin, name, n, k):
     a, b = next(e for e, f in CONVERTER.items() if f == name)
     t0, t1 = grid_point(a, n, k), grid_point(a, n, k + 1)
@@ -255,7 +321,8 @@ def shards(tier, seed):
     out += [("mono-exact", tier, s) for s in range(len(STANDINS))]
     out += [("float", tier, c) for c in CONTAINERS]
     out += [("mono-float", tier)]
-    out += [("sat", tier, c) for c in CONTAINERS]
+    out += [("convert-other", tier, d) for d in DTYPES[1:]]
+    out += [("sat", tier, c, d) for d in DTYPES for c in containers(d)]
     out += [("reject", tier)]
     out += [("rh", tier, e) for e in sat.saturation_functions()]
     out += [("lapse", tier, e) for e in LAPSE_E_EQ]
@@ -331,27 +398,45 @@ def run_shard(shard):
                 case = dict(part=part, func=name, n=par["mono"], k=k)
                 if k in bad:
                     report(res, bad[k], case)
+    elif part == "convert-other":
+        dtype = shard[2]
+        for container, name in itertools.product(containers(dtype),
+                                                 CONVERTER.values()):
+            values = other_values(dtype, name, par["x0"])
+            bad = convert_other(dtype, container, name, values)
+            for i, v in enumerate(values):
+                res.case(nontrivial=v != 0)
+                case = dict(part=part, dtype=dtype, container=container,
+                            func=name, index=i,
+                            values=[frac(v) for v in values])
+                if i in bad:
+                    report(res, bad[i], case)
     elif part == "sat":
+        container, dtype = shard[2:]
+        per_kelvin, step = (par["per_kelvin"], None) \
+            if dtype == "float64" else (
+                par["per_kelvin_other"],
+                par["scalar_step_other"] if container in PER_VALUE else None)
         for regime, temps, (key, idx, exp, obs, msg) in \
-                sat.lattice_violations(shard[2], par["per_kelvin"]):
+                sat.lattice_violations(container, per_kelvin, dtype, step):
             # an array call is replayed as a whole: what it does to one
             # element may depend on the others
-            case = dict(part=part, container=shard[2],
+            case = dict(part=part, container=container, dtype=dtype,
                         temps=[temps[i] for i in idx]) \
-                if shard[2] in PER_VALUE else \
-                dict(part=part, container=shard[2], regime=regime,
-                     per_kelvin=par["per_kelvin"],
+                if container in PER_VALUE and "depends-on" not in key else \
+                dict(part=part, container=container, dtype=dtype,
+                     regime=regime, per_kelvin=per_kelvin, step=step,
                      at=idx and [temps[i] for i in idx])
             report(res, (key, exp, obs, msg), case)
-        for regime in sat.regimes(shard[2]):
-            temps = sat.sublattice(par["per_kelvin"], regime)
+        for regime in sat.regimes(container):
+            temps = sat.sublattice(per_kelvin, regime, dtype, step)
             for t in temps:
                 res.case(nontrivial=sat.in_blend(t))
             res.count("branch_neighbourhood_temperatures",
                       sum(sat.near(t, sat.TT) or sat.near(t, sat.TB)
                           for t in temps))
-        case = dict(part=part, container=shard[2], regime=regime,
-                    temps=temps[-2:])
+        case = dict(part=part, container=container, dtype=dtype,
+                    regime=regime, temps=temps[-2:])
     elif part == "reject":
         for name, label in itertools.product(sat.SAT, sat.REJECT):
             res.case(nontrivial=True)
@@ -362,27 +447,30 @@ def run_shard(shard):
     elif part == "rh":
         for container, direction, form in itertools.product(
                 ("float", "array"), sat.RH_FUNCS, sat.E_EQ_FORMS):
-            values = RH_VALUES[direction]
-            for v in values:
-                for _ in range(len(pascal) * len(temps)):
-                    res.case(nontrivial=v != 0)
-            for bad in sat.rh_violations(shard[2], container, direction,
-                                         form, values, pascal, temps):
-                report(res, (bad[0],) + bad[2:], bad[1])
+            for (values, ps, ts), dtypes in sat.represented(
+                    container, (RH_VALUES[direction], pascal, temps), form):
+                for v in values:
+                    for _ in range(len(ps) * len(ts)):
+                        res.case(nontrivial=v != 0)
+                for bad in sat.rh_violations(shard[2], container, direction,
+                                             form, values, ps, ts, dtypes):
+                    report(res, (bad[0],) + bad[2:], bad[1])
         case = sat.rh_case(shard[2], container, direction, form,
-                           (values[-1], pascal[-1], temps[-1]))
+                           (values[-1], ps[-1], ts[-1]), dtypes)
     elif part == "lapse":
-        domain = sat.lapse_domain(shard[2], pascal, temps)
-        res.count("lapse_points_without_moist_adiabat",
-                  2 * (len(pascal) * len(temps) - len(domain)))
         for container in ("float", "array"):
-            for w, b in domain.values():
-                res.case(nontrivial=2 * b * w > 2 * U)
-            for bad in sat.lapse_violations(shard[2], container, pascal,
-                                            temps):
-                report(res, (bad[0],) + bad[2:], bad[1])
+            for (ps, ts), dtypes in sat.represented(container,
+                                                    (pascal, temps)):
+                domain = sat.lapse_domain(shard[2], ps, ts)
+                res.count("lapse_points_without_moist_adiabat",
+                          len(ps) * len(ts) - len(domain))
+                for w, b in domain.values():
+                    res.case(nontrivial=2 * b * w > 2 * U)
+                for bad in sat.lapse_violations(shard[2], container, ps, ts,
+                                                dtypes):
+                    report(res, (bad[0],) + bad[2:], bad[1])
         case = sat.lapse_case(shard[2], container,
-                              max(domain, default=(pascal[-1], temps[-1])))
+                              max(domain, default=(ps[-1], ts[-1])), dtypes)
     res.sample(case)
     return res
 
@@ -400,12 +488,18 @@ def replay(case):
                            case["k"])]
     elif part == "mono-float":
         bads = [mono_float(case["func"], case["n"]).get(case["k"])]
+    elif part == "convert-other":
+        bads = [convert_other(case["dtype"], case["container"], case["func"],
+                              [F(v) for v in case["values"]]
+                              ).get(case["index"])]
     elif part == "sat":
-        if case["container"] in PER_VALUE:
-            found = sat.sat_violations(case["container"], case["temps"])
+        if "temps" in case:
+            found = sat.sat_violations(case["container"], case["temps"],
+                                       case["dtype"])
         else:
             found = [bad for regime, _, bad in sat.lattice_violations(
-                case["container"], case["per_kelvin"])
+                case["container"], case["per_kelvin"], case["dtype"],
+                case["step"])
                 if regime == case["regime"]]
         bads = [(key, exp, obs, msg) for key, _, exp, obs, msg in found]
     elif part == "reject":
@@ -414,10 +508,12 @@ def replay(case):
     elif part == "rh":
         bads = [(b[0],) + b[2:] for b in sat.rh_violations(
             case["e_eq"], case["container"], case["direction"],
-            case["form"], [case["value"]], [case["p"]], [case["T"]])]
+            case["form"], [case["value"]], [case["p"]], [case["T"]],
+            tuple(case["dtypes"]))]
     elif part == "lapse":
         bads = [(b[0],) + b[2:] for b in sat.lapse_violations(
-            case["e_eq"], case["container"], [case["p"]], [case["T"]])]
+            case["e_eq"], case["container"], [case["p"]], [case["T"]],
+            tuple(case["dtypes"]))]
     bads = [b for b in bads if b]
     if not bads:
         return dict(ok=True)
